@@ -22,15 +22,19 @@ func init() {
 }
 
 // scriptReader plays a script of read results.
-//   d:<hex>     deliver these bytes (possibly over several Read calls)
-//   eof         return io.EOF once
-//   timeout     return an error whose text contains "i/o timeout" once
-//   err         return another error once
-//   sleep:<ms>  pause before the next step
+//
+//	d:<hex>     deliver these bytes (possibly over several Read calls)
+//	de:<hex>    deliver these bytes and return io.EOF in the same Read call as the last of them
+//	eof         return io.EOF once
+//	timeout     return an error whose text contains "i/o timeout" once
+//	err         return another error once
+//	sleep:<ms>  pause before the next step
+//
 // After the script it returns io.EOF for ever.
 type scriptReader struct {
-	steps []string
-	cur   []byte
+	steps       []string
+	cur         []byte
+	eofWithLast bool
 }
 
 func (r *scriptReader) Read(p []byte) (int, error) {
@@ -38,6 +42,10 @@ func (r *scriptReader) Read(p []byte) (int, error) {
 		if len(r.cur) > 0 {
 			n := copy(p, r.cur)
 			r.cur = r.cur[n:]
+			if len(r.cur) == 0 && r.eofWithLast {
+				r.eofWithLast = false
+				return n, io.EOF
+			}
 			return n, nil
 		}
 		if len(r.steps) == 0 {
@@ -48,6 +56,9 @@ func (r *scriptReader) Read(p []byte) (int, error) {
 		switch {
 		case strings.HasPrefix(s, "d:"):
 			r.cur = unhex(s[2:])
+		case strings.HasPrefix(s, "de:"):
+			r.cur = unhex(s[3:])
+			r.eofWithLast = len(r.cur) > 0
 		case s == "eof":
 			return 0, io.EOF
 		case s == "timeout":
